@@ -6198,6 +6198,29 @@ void SoPlexBase<R>::factorizeColumnRational(SolRational& sol,
       loadMatrix = true;
    }
 
+   // a factorization that is still loaded can only be reused if its columns are ordered like the status arrays (basic
+   // rows, then basic columns, by increasing index), which is what the right-hand sides below assume; a factorization
+   // loaded through computeBasisInverseRational() follows the order of getBasisInd() instead
+   if(!loadMatrix)
+   {
+      int k = 0;
+
+      for(int i = 0; i < basisStatusRows.size() && !loadMatrix; i++)
+      {
+         if(basisStatusRows[i] == SPxSolverBase<R>::BASIC && k < matrixdim)
+            loadMatrix = (_rationalLUSolverBind[k++] != -1 - i);
+      }
+
+      for(int i = 0; i < basisStatusCols.size() && !loadMatrix; i++)
+      {
+         if(basisStatusCols[i] == SPxSolverBase<R>::BASIC && k < matrixdim)
+            loadMatrix = (_rationalLUSolverBind[k++] != i);
+      }
+
+      if(loadMatrix)
+         _rationalLUSolver.clear();
+   }
+
    _workSol._primal.reDim(matrixdim);
    _workSol._slacks.reDim(matrixdim);
    _workSol._dual.reDim(matrixdim);
